@@ -317,136 +317,126 @@ theorem callSize_mkCall (fn : Fn) (vals : List Val) :
 
 mutual
 theorem build_node (H : ScaledRoundTrip) : ∀ (n : Node) (m : Mode) (f : Nat),
-    2 * callSize (lowerNode n) < f → allowed m (kindFn n) = true → exprNode n = true →
-    buildCall f m (lowerNode n) = some [n]
+    2 * callSize (lowerNode n) < f → allowed m (kindFn n) = true → reprNode n = true →
+    buildCall f m (lowerNode n) = some [normNode n]
   | .char c font, m, f, hf, hm, he => by
     obtain ⟨f', rfl⟩ : ∃ f', f = f' + 2 := ⟨f - 2, by simp [lowerNode, charsCall, callSize_mkCall, argsSize, mkArgs, Fn.npos, Fn.fields] at hf; omega⟩
-    simp only [exprNode] at he
-    simpa [lowerNode] using build_chars f' m hm [c] font (u32Ok_lt he)
+    simp only [reprNode, decide_eq_true_eq] at he
+    simpa [lowerNode, normNode] using build_chars f' m hm [c] font he
   | .glue kind w st sto sh sho, m, f, hf, hm, he => by
     obtain ⟨f', rfl⟩ : ∃ f', f = f' + 2 := ⟨f - 2, by simp [lowerNode, callSize_mkCall, argsSize, mkArgs, Fn.npos, Fn.fields] at hf; omega⟩
-    simp only [exprNode, Bool.and_eq_true, decide_eq_true_eq] at he
-    obtain ⟨⟨⟨hk, _⟩, _⟩, _⟩ := he
-    subst hk
-    simp only [lowerNode]
+    simp only [lowerNode, normNode]
     rw [buildCall_glue _ _ hm, buildFn_glue]
   | .kern kind w, m, f, hf, hm, he => by
     obtain ⟨f', rfl⟩ : ∃ f', f = f' + 2 := ⟨f - 2, by simp [lowerNode, callSize_mkCall, argsSize, mkArgs, Fn.npos, Fn.fields] at hf; omega⟩
-    simp only [exprNode, Bool.and_eq_true, decide_eq_true_eq] at he
-    obtain ⟨hk, _⟩ := he
-    subst hk
-    simp only [lowerNode]
+    simp only [lowerNode, normNode]
     rw [buildCall_kern _ _ hm, buildFn_kern]
   | .penalty p, m, f, hf, hm, he => by
     obtain ⟨f', rfl⟩ : ∃ f', f = f' + 2 := ⟨f - 2, by simp [lowerNode, callSize_mkCall, argsSize, mkArgs, Fn.npos, Fn.fields] at hf; omega⟩
-    simp only [lowerNode]
+    simp only [lowerNode, normNode]
     rw [buildCall_penalty _ _ hm, buildFn_penalty]
   | .rule h w d, m, f, hf, hm, he => by
     obtain ⟨f', rfl⟩ : ∃ f', f = f' + 2 := ⟨f - 2, by simp [lowerNode, callSize_mkCall, argsSize, mkArgs, Fn.npos, Fn.fields] at hf; omega⟩
-    simp only [lowerNode]
+    simp only [lowerNode, normNode]
     rw [buildCall_rule _ _ hm, buildFn_rule]
   | .lig c orig font l r, m, f, hf, hm, he => by
     obtain ⟨f', rfl⟩ : ∃ f', f = f' + 2 := ⟨f - 2, by simp [lowerNode, callSize_mkCall, argsSize, mkArgs, Fn.npos, Fn.fields] at hf; omega⟩
-    simp only [exprNode] at he
-    simp only [lowerNode]
-    rw [buildCall_lig _ _ hm, buildFn_lig _ _ _ _ (u32Ok_lt he)]
+    simp only [reprNode, decide_eq_true_eq] at he
+    simp only [lowerNode, normNode]
+    rw [buildCall_lig _ _ hm, buildFn_lig _ _ _ _ he]
   | .mark n, m, f, hf, hm, he => by
     obtain ⟨f', rfl⟩ : ∃ f', f = f' + 2 := ⟨f - 2, by simp [lowerNode, callSize_mkCall, argsSize, mkArgs, Fn.npos, Fn.fields] at hf; omega⟩
-    simp only [exprNode, decide_eq_true_eq] at he
-    subst he
-    simp only [lowerNode]
+    simp only [lowerNode, normNode]
     rw [buildCall_mark _ _ hm, buildFn_mark]
   | .math a, m, f, hf, hm, he => by
     obtain ⟨f', rfl⟩ : ∃ f', f = f' + 2 := ⟨f - 2, by simp [lowerNode, callSize_mkCall, argsSize, mkArgs, Fn.npos, Fn.fields] at hf; omega⟩
-    simp only [lowerNode]
+    simp only [lowerNode, normNode]
     rw [buildCall_math _ _ hm, buildFn_math]
   | .disc pre post rc, m, f, hf, hm, he => by
     have ih1 := build_D H pre
     have ih2 := build_D H post
     simp only [lowerNode, callSize_mkCall, argsSize, argSize, valSize, mkArgs, Fn.npos, Fn.fields] at hf
     obtain ⟨f', rfl⟩ : ∃ f', f = f' + 2 := ⟨f - 2, by omega⟩
-    simp only [exprNode, Bool.and_eq_true] at he
+    simp only [reprNode, Bool.and_eq_true, decide_eq_true_eq] at he
     obtain ⟨⟨h1, h2⟩, h3⟩ := he
-    simp only [lowerNode]
+    simp only [lowerNode, normNode]
     rw [buildCall_disc _ _ hm,
-      buildFn_disc _ _ _ _ (u32Ok_lt h3) pre post (ih1 f' (by omega) h1) (ih2 f' (by omega) h2)]
+      buildFn_disc _ _ _ _ h3 _ _ (ih1 f' (by omega) h1) (ih2 f' (by omega) h2)]
   | .hbox h w d shift ratio order l, m, f, hf, hm, he => by
     have ih := build_goH H l none
     simp only [lowerNode, callSize_mkCall, argsSize, argSize, valSize, mkArgs, Fn.npos, Fn.fields] at hf
     obtain ⟨f', rfl⟩ : ∃ f', f = f' + 2 := ⟨f - 2, by omega⟩
-    simp only [exprNode, Bool.and_eq_true, decide_eq_true_eq] at he
-    obtain ⟨⟨⟨⟨⟨⟨_, _⟩, _⟩, _⟩, h0⟩, h1⟩, hl⟩ := he
-    simp only [lowerNode]
+    simp only [reprNode, Bool.and_eq_true, decide_eq_true_eq] at he
+    obtain ⟨⟨h0, h1⟩, hl⟩ := he
+    simp only [lowerNode, normNode]
     rw [buildCall_hbox _ _ hm,
-      buildFn_hbox H _ _ _ _ _ _ h0 (dimOk_le h1) _ _ l (by simpa [curNodes] using ih f' (by omega) hl trivial)]
+      buildFn_hbox H _ _ _ _ _ _ h0 (by simpa [maxDimen] using h1) _ _ _ (by simpa [curNodes] using ih f' (by omega) hl trivial)]
   | .vbox h w d shift gset l, m, f, hf, hm, he => by
     have ih := build_V H l
     simp only [lowerNode, callSize_mkCall, argsSize, argSize, valSize, mkArgs, Fn.npos, Fn.fields] at hf
     obtain ⟨f', rfl⟩ : ∃ f', f = f' + 2 := ⟨f - 2, by omega⟩
-    simp only [exprNode, Bool.and_eq_true, Bool.not_eq_true'] at he
-    obtain ⟨⟨_, hg⟩, hl⟩ := he
-    subst hg
-    simp only [lowerNode]
-    rw [buildCall_vbox _ _ hm, buildFn_vbox _ _ _ _ _ _ l (ih f' (by omega) hl)]
+    simp only [reprNode] at he
+    simp only [lowerNode, normNode]
+    rw [buildCall_vbox _ _ hm, buildFn_vbox _ _ _ _ _ _ _ (ih f' (by omega) he)]
   | .adjust l, m, f, hf, hm, he => by
     have ih := build_V H l
     simp only [lowerNode, callSize_mkCall, argsSize, argSize, valSize, mkArgs, Fn.npos, Fn.fields] at hf
     obtain ⟨f', rfl⟩ : ∃ f', f = f' + 2 := ⟨f - 2, by omega⟩
-    simp only [exprNode] at he
-    simp only [lowerNode]
-    rw [buildCall_adjust _ _ hm, buildFn_adjust _ _ l (ih f' (by omega) he)]
+    simp only [reprNode] at he
+    simp only [lowerNode, normNode]
+    rw [buildCall_adjust _ _ hm, buildFn_adjust _ _ _ (ih f' (by omega) he)]
   | .ins box h md w st sto sh sho fp l, m, f, hf, hm, he => by
     have ih := build_V H l
     simp only [lowerNode, callSize_mkCall, argsSize, argSize, valSize, mkArgs, Fn.npos, Fn.fields] at hf
     obtain ⟨f', rfl⟩ : ∃ f', f = f' + 2 := ⟨f - 2, by omega⟩
-    simp only [exprNode, Bool.and_eq_true, decide_eq_true_eq] at he
-    obtain ⟨⟨⟨⟨⟨⟨⟨hb, _⟩, _⟩, _⟩, _⟩, _⟩, hfp⟩, hl⟩ := he
-    simp only [lowerNode]
+    simp only [reprNode, Bool.and_eq_true, decide_eq_true_eq] at he
+    obtain ⟨⟨hb, hfp⟩, hl⟩ := he
+    simp only [lowerNode, normNode]
     rw [buildCall_insertion _ _ hm,
-      buildFn_insertion _ _ hb _ _ _ _ _ _ _ _ (u32Ok_lt hfp) _ l (ih f' (by omega) hl)]
+      buildFn_insertion _ _ hb _ _ _ _ _ _ _ _ hfp _ _ (ih f' (by omega) hl)]
 
 theorem build_goH (H : ScaledRoundTrip) : ∀ (l : List Node) (cur : Option (Nat × Str)) (f : Nat),
-    2 * callsSize (goH cur l) < f → exprList .H l = true → curOk cur →
-    buildCalls f .H (goH cur l) = some (curNodes cur ++ l)
+    2 * callsSize (goH cur l) < f → reprList .H l = true → curOk cur →
+    buildCalls f .H (goH cur l) = some (curNodes cur ++ normList l)
   | [], cur, f, hf, he, hc => by
     cases cur with
     | none =>
       obtain ⟨f', rfl⟩ : ∃ f', f = f' + 1 := ⟨f - 1, by omega⟩
-      simp [goH, buildCalls, curNodes]
+      simp [goH, buildCalls, curNodes, normList]
     | some p =>
       obtain ⟨ft, buf⟩ := p
       simp only [goH, callsSize, callSize_mkCall, charsCall] at hf
       obtain ⟨f', rfl⟩ : ∃ f', f = f' + 3 := ⟨f - 3, by omega⟩
       simp only [goH]
       rw [buildCalls_cons _ _ _ _ _ [] (build_chars f' .H rfl buf ft hc) (by simp [buildCalls])]
-      simp [curNodes]
+      simp [curNodes, normList]
   | n :: r, cur, f, hf, he, hc => by
     have ihn := build_node H n .H
     have ihr := build_goH H r
-    simp only [exprList, Bool.and_eq_true] at he
+    simp only [reprList, Bool.and_eq_true] at he
     obtain ⟨⟨ha, hen⟩, her⟩ := he
     by_cases hch : ∃ c font, n = .char c font
     · obtain ⟨c, font, rfl⟩ := hch
-      simp only [exprNode] at hen
-      have hfont := u32Ok_lt hen
+      simp only [reprNode, decide_eq_true_eq] at hen
+      have hfont := hen
       cases cur with
       | none =>
         simp only [goH] at hf ⊢
         rw [ihr (some (font, [c])) f hf her hfont]
-        simp [curNodes]
+        simp [curNodes, normList, normNode]
       | some p =>
         obtain ⟨ft, buf⟩ := p
         by_cases hft : font = ft
         · subst hft
           simp only [goH, if_true] at hf ⊢
           rw [ihr (some (font, buf ++ [c])) f hf her hfont]
-          simp [curNodes]
+          simp [curNodes, normList, normNode]
         · simp only [goH, hft, if_false] at hf ⊢
           simp only [callsSize, charsCall, callSize_mkCall] at hf
           obtain ⟨f', rfl⟩ : ∃ f', f = f' + 3 := ⟨f - 3, by omega⟩
           rw [buildCalls_cons _ _ _ _ _ _ (build_chars f' .H rfl buf ft hc)
             (ihr (some (font, [c])) (f' + 2) (by omega) her hfont)]
-          simp [curNodes]
+          simp [curNodes, normList, normNode]
     · have hnc : ∀ c f, n ≠ .char c f := fun c f h => hch ⟨c, f, h⟩
       cases cur with
       | none =>
@@ -454,7 +444,7 @@ theorem build_goH (H : ScaledRoundTrip) : ∀ (l : List Node) (cur : Option (Nat
         simp only [callsSize] at hf
         obtain ⟨f', rfl⟩ : ∃ f', f = f' + 1 := ⟨f - 1, by omega⟩
         rw [buildCalls_cons _ _ _ _ _ _ (ihn f' (by omega) ha hen) (ihr none f' (by omega) her trivial)]
-        simp [curNodes]
+        simp [curNodes, normList, normNode]
       | some p =>
         obtain ⟨ft, buf⟩ := p
         rw [goH_nonchar_some n r ft buf hnc] at hf ⊢
@@ -462,17 +452,17 @@ theorem build_goH (H : ScaledRoundTrip) : ∀ (l : List Node) (cur : Option (Nat
         obtain ⟨f', rfl⟩ : ∃ f', f = f' + 3 := ⟨f - 3, by omega⟩
         rw [buildCalls_cons _ _ _ _ _ _ (build_chars f' .H rfl buf ft hc)
           (buildCalls_cons _ _ _ _ _ _ (ihn (f' + 1) (by omega) ha hen) (ihr none (f' + 1) (by omega) her trivial))]
-        simp [curNodes]
+        simp [curNodes, normList, normNode]
 
 theorem build_V (H : ScaledRoundTrip) : ∀ (l : List Node) (f : Nat),
-    2 * callsSize (lowerV l) < f → exprList .V l = true → buildCalls f .V (lowerV l) = some l
+    2 * callsSize (lowerV l) < f → reprList .V l = true → buildCalls f .V (lowerV l) = some (normList l)
   | [], f, hf, he => by
     obtain ⟨f', rfl⟩ : ∃ f', f = f' + 1 := ⟨f - 1, by omega⟩
-    simp [lowerV, buildCalls]
+    simp [lowerV, buildCalls, normList]
   | n :: r, f, hf, he => by
     have ihn := build_node H n .V
     have ihr := build_V H r
-    simp only [exprList, Bool.and_eq_true] at he
+    simp only [reprList, Bool.and_eq_true] at he
     obtain ⟨⟨ha, hen⟩, her⟩ := he
     simp only [lowerV, callsSize] at hf ⊢
     obtain ⟨f', rfl⟩ : ∃ f', f = f' + 1 := ⟨f - 1, by omega⟩
@@ -480,14 +470,14 @@ theorem build_V (H : ScaledRoundTrip) : ∀ (l : List Node) (f : Nat),
     rfl
 
 theorem build_D (H : ScaledRoundTrip) : ∀ (l : List Node) (f : Nat),
-    2 * callsSize (lowerD l) < f → exprList .D l = true → buildCalls f .D (lowerD l) = some l
+    2 * callsSize (lowerD l) < f → reprList .D l = true → buildCalls f .D (lowerD l) = some (normList l)
   | [], f, hf, he => by
     obtain ⟨f', rfl⟩ : ∃ f', f = f' + 1 := ⟨f - 1, by omega⟩
-    simp [lowerD, buildCalls]
+    simp [lowerD, buildCalls, normList]
   | n :: r, f, hf, he => by
     have ihn := build_node H n .D
     have ihr := build_D H r
-    simp only [exprList, Bool.and_eq_true] at he
+    simp only [reprList, Bool.and_eq_true] at he
     obtain ⟨⟨ha, hen⟩, her⟩ := he
     simp only [lowerD, callsSize] at hf ⊢
     obtain ⟨f', rfl⟩ : ∃ f', f = f' + 1 := ⟨f - 1, by omega⟩
@@ -495,8 +485,8 @@ theorem build_D (H : ScaledRoundTrip) : ∀ (l : List Node) (f : Nat),
     rfl
 end
 
-theorem build_lower (H : ScaledRoundTrip) (m : Mode) (l : List Node) (he : exprList m l = true) :
-    build m (lower m l) = some l := by
+theorem build_lower (H : ScaledRoundTrip) (m : Mode) (l : List Node) (he : reprList m l = true) :
+    build m (lower m l) = some (normList l) := by
   unfold build
   cases m with
   | H => simpa [lower, lowerH, curNodes] using build_goH H l none _ (by simp [lower, lowerH]) he trivial
@@ -505,17 +495,71 @@ theorem build_lower (H : ScaledRoundTrip) (m : Mode) (l : List Node) (he : exprL
 
 /-- The per-element printer (`Display for ds::Horizontal`, as used by boxworks-testing). -/
 theorem build_each (H : ScaledRoundTrip) : ∀ (l : List Node) (f : Nat),
-    2 * callsSize (lowerEach l) < f → exprList .H l = true → buildCalls f .H (lowerEach l) = some l
+    2 * callsSize (lowerEach l) < f → reprList .H l = true → buildCalls f .H (lowerEach l) = some (normList l)
   | [], f, hf, he => by
     obtain ⟨f', rfl⟩ : ∃ f', f = f' + 1 := ⟨f - 1, by omega⟩
-    simp [lowerEach, buildCalls]
+    simp [lowerEach, buildCalls, normList]
   | n :: r, f, hf, he => by
     have ihr := build_each H r
-    simp only [exprList, Bool.and_eq_true] at he
+    simp only [reprList, Bool.and_eq_true] at he
     obtain ⟨⟨ha, hen⟩, her⟩ := he
     simp only [lowerEach, callsSize] at hf ⊢
     obtain ⟨f', rfl⟩ : ∃ f', f = f' + 1 := ⟨f - 1, by omega⟩
     rw [buildCalls_cons _ _ _ _ _ _ (build_node H n .H f' (by omega) ha hen) (ihr f' (by omega) her)]
     rfl
+
+/-! ### `exprList` is `reprList` on which `normList` is the identity -/
+
+mutual
+theorem repr_of_expr : ∀ (n : Node), exprNode n = true → reprNode n = true ∧ normNode n = n
+  | .char c font, he => by
+    simp only [exprNode] at he
+    simp [reprNode, normNode, u32Ok_lt he]
+  | .glue kind w st sto sh sho, he => by
+    simp only [exprNode, Bool.and_eq_true, decide_eq_true_eq] at he
+    simp [reprNode, normNode, he.1.1.1]
+  | .kern kind w, he => by
+    simp only [exprNode, Bool.and_eq_true, decide_eq_true_eq] at he
+    simp [reprNode, normNode, he.1]
+  | .penalty p, he => by simp [reprNode, normNode]
+  | .rule h w d, he => by simp [reprNode, normNode]
+  | .lig c o font l r, he => by
+    simp only [exprNode] at he
+    simp [reprNode, normNode, u32Ok_lt he]
+  | .mark n, he => by
+    simp only [exprNode, decide_eq_true_eq] at he
+    simp [reprNode, normNode, he]
+  | .math a, he => by simp [reprNode, normNode]
+  | .disc pre post rc, he => by
+    simp only [exprNode, Bool.and_eq_true] at he
+    have h1 := repr_list_of_expr .D pre he.1.1
+    have h2 := repr_list_of_expr .D post he.1.2
+    simp [reprNode, normNode, h1.1, h1.2, h2.1, h2.2, u32Ok_lt he.2]
+  | .hbox h w d s ratio o l, he => by
+    simp only [exprNode, Bool.and_eq_true, decide_eq_true_eq] at he
+    have h1 := repr_list_of_expr .H l he.2
+    have := dimOk_le he.1.2
+    simp [reprNode, normNode, h1.1, h1.2, he.1.1.2, maxDimen, this]
+  | .vbox h w d s g l, he => by
+    simp only [exprNode, Bool.and_eq_true, Bool.not_eq_true'] at he
+    have h1 := repr_list_of_expr .V l he.2
+    simp [reprNode, normNode, h1.1, h1.2, he.1.2]
+  | .adjust l, he => by
+    simp only [exprNode] at he
+    have h1 := repr_list_of_expr .V l he
+    simp [reprNode, normNode, h1.1, h1.2]
+  | .ins box h md w st sto sh sho fp l, he => by
+    simp only [exprNode, Bool.and_eq_true, decide_eq_true_eq] at he
+    have h1 := repr_list_of_expr .V l he.2
+    simp [reprNode, normNode, h1.1, h1.2, he.1.1.1.1.1.1.1, u32Ok_lt he.1.2]
+theorem repr_list_of_expr : ∀ (m : Mode) (l : List Node), exprList m l = true →
+    reprList m l = true ∧ normList l = l
+  | m, [], _ => by simp [reprList, normList]
+  | m, n :: r, he => by
+    simp only [exprList, Bool.and_eq_true] at he
+    have h1 := repr_of_expr n he.1.2
+    have h2 := repr_list_of_expr m r he.2
+    simp [reprList, normList, he.1.1, h1.1, h1.2, h2.1, h2.2]
+end
 
 end C18
